@@ -9,12 +9,19 @@ open SoupVerif
 #print axioms C11.xml_tag_exact
 #print axioms C11.html_matchTag_fold
 #print axioms C11.xml_tag_case_sensitive_witness
+#print axioms C11.html_attr_values_lower
 #print axioms C11.html_attr_name_lower
+#print axioms C11.html_attr_values_fold
 #print axioms C11.html_attr_name_fold
+#print axioms C11.html_attr_values_fold_doc
 #print axioms C11.html_attr_name_fold_doc
 #print axioms C11.str_beq_comm
+#print axioms C11.name_of_values
+#print axioms C11.xml_attr_values_exact
 #print axioms C11.xml_attr_name_exact
+#print axioms C11.xml_attr_values_bare_exact
 #print axioms C11.xml_attr_bare_exact
+#print axioms C11.xml_attr_values_any_exact
 #print axioms C11.xml_attr_any_exact
 #print axioms C11.attrByName_html
 #print axioms C11.attrByName_xml
